@@ -1,0 +1,20 @@
+//go:build verif
+
+package sdf
+
+import "github.com/deadsy/sdfx/vec/v3i"
+
+// Read-only access to private state for the C02 correspondence (caches and voxel wrappers
+// return the wrapped shape's values). Nothing here changes behaviour.
+
+// VerifVoxelDump returns the bounding box, the number of cells per axis and the stored corner values.
+func (m *VoxelSDF3) VerifVoxelDump() (Box3, v3i.Vec, map[v3i.Vec]float64) {
+	return m.bb, m.numVoxels, m.voxelCorners
+}
+
+// VerifCacheStats returns the counters and the number of stored points of the cache.
+func (s *CacheSDF2) VerifCacheStats() (reads, hits uint, entries int) {
+	s.mu.Lock()
+	defer s.mu.Unlock()
+	return s.reads, s.hits, len(s.cache)
+}
